@@ -21,9 +21,15 @@ def VC(h="TRUE"):
     return {"MaxQ": 0, "MaxLayers": 0, "Phases": "<- PhasesQ", "Halving": h, "ZMaxW": 0, "ZMaxBoxes": 0}
 
 
-def observe_c2zx(c):
+def observe_c2zx(c, pre=()):
+    """pre: circuits translated earlier in the same process (the translation must not depend on that history)"""
     from discopy.quantum.zx import circuit2zx
-    rec = {"kind": "c2zx", "c": c, "zx": EMPTY_ZX, "dag": EMPTY_ZX, "exc": ""}
+    rec = {"kind": "c2zx", "c": c, "zx": EMPTY_ZX, "dag": EMPTY_ZX, "exc": "", "pre": list(pre)}
+    for p in pre:
+        try:
+            circuit2zx(qadapt.circuit(p))
+        except Exception:
+            pass
     try:
         rec["zx"] = qadapt.proj_zx(circuit2zx(qadapt.circuit(c)))
     except qadapt.NotOnGrid as e:
@@ -72,8 +78,17 @@ def run(tier, seed, t0):
         for k, n in (("Rz", 1), ("Rx", 1), ("CRz", 2), ("CRx", 2), ("CU1", 2)):
             for ph in range(-4, 17):
                 csample.append({"dom": n, "layers": [{"g": G(k, ph), "off": 0}]})
+        # phases many turns away from zero (the translation reduces them; nearby large phases print alike), each
+        # translated after a neighbour of the same kind: the image must be a function of the gate alone
+        wide = []
+        for k, n in (("Rz", 1), ("Rx", 1), ("CRz", 2), ("CRx", 2), ("CU1", 2)):
+            for base in (800, 8000, -808):
+                for a, b in ((1, 2), (3, 1), (4, 12)):
+                    one = lambda ph: {"dom": n, "layers": [{"g": G(k, ph), "off": 0}]}
+                    wide.append((one(base + b), [one(base + a)]))
+                    wide.append(({"dom": n, "layers": [{"g": G(k, base + a), "off": 0}, {"g": G(k, base + b), "off": 0}]}, []))
         zsample = zxs if len(zxs) <= c["zx_replay"] else rnd.sample(zxs, c["zx_replay"])
-        rows = [observe_c2zx(x) for x in csample] + [observe_dag(d) for d in zsample]
+        rows = [observe_c2zx(x) for x in csample] + [observe_c2zx(x, pre) for x, pre in wide] + [observe_dag(d) for d in zsample]
         tf = os.path.join(work, "trace.ndjson")
         core.write_ndjson(tf, rows)
         val = core.validate("Trace_ZX", "J16", tf, work, constants=VC(), timeout=3000)
@@ -84,8 +99,9 @@ def run(tier, seed, t0):
                 if t["kind"] == "c2zx":
                     kinds = sorted(set(l["g"]["k"] for l in t["c"]["layers"]))
                     nz = sorted(set(l["g"]["k"] for l in t["c"]["layers"] if l["g"]["ph"] % 16))
-                    sig = "gates=%s nonzero-phase=%s | %s -> %s exc=%s" % (",".join(kinds), ",".join(nz), qadapt.describe(t["c"]),
-                                                                        qadapt.describe_zx(t["zx"]), t["exc"] or "-")
+                    sig = "gates=%s nonzero-phase=%s | %s -> %s exc=%s%s" % (",".join(kinds), ",".join(nz), qadapt.describe(t["c"]),
+                                                                          qadapt.describe_zx(t["zx"]), t["exc"] or "-",
+                                                                          " after translating " + "; ".join(qadapt.describe(p) for p in t["pre"]) if t.get("pre") else "")
                 else:
                     sig = "dagger of %s exc=%s" % (qadapt.describe_zx(t["zx"]), t["exc"] or "-")
                 rejected.append({"clause": v[0], "sig": sig, "obs": t})
@@ -116,7 +132,7 @@ def run(tier, seed, t0):
                "exhaustive": False,
                "model": {"MC_ZX": {"InvTable": "all 11 supported gate kinds x 16 grid phases", "InvZXDagger_states": zxm["distinct"],
                                    "ZMaxW": c["zx"][0], "ZMaxBoxes": c["zx"][1]}, "MC_Gates": {"MaxQ": 2, "MaxLayers": 2}},
-               "replay": {"supported_circuits_in_model": n_c, "circuits_translated": len(csample),
+               "replay": {"supported_circuits_in_model": n_c, "circuits_translated": len(csample) + len(wide), "far_phases_after_a_neighbour": len(wide),
                           "zx_diagrams_in_model": n_z, "zx_daggers": len(zsample)},
                "verdicts_by_clause": dict(clauses), "canary": can,
                "model_drift": dict(Counter(v[0] for v in drift["verdicts"] if v[0] != "ok"))}
@@ -127,7 +143,7 @@ def replay(path):
     with open(path) as f:
         t = json.load(f)["observation"]
     with core.workdir("C16-replay") as work:
-        t2 = observe_c2zx(t["c"]) if t["kind"] == "c2zx" else observe_dag(t["zx"])
+        t2 = observe_c2zx(t["c"], t.get("pre", ())) if t["kind"] == "c2zx" else observe_dag(t["zx"])
         tf = os.path.join(work, "one.ndjson")
         core.write_ndjson(tf, [t2])
         v = core.validate("Trace_ZX", "J16", tf, work, constants=VC())["verdicts"][0][0]
